@@ -336,6 +336,14 @@ var malCases = []malCase{
 	}},
 }
 
+func init() {
+	// whole signatures drawn from the type grammar (malsig.go)
+	for _, api := range []string{"provide", "decorate", "invoke"} {
+		malCases = append(malCases, randomSigCase(api))
+		malIndex[api+"/random-sig"] = len(malCases) - 1
+	}
+}
+
 var nonFuncs = []interface{}{42, "x", struct{}{}, &M0{}, []int{1}, map[string]int{}, 3.5, true, new(int), [2]int{}, MS0{}, fmt.Errorf("e"), dig.In{}, &dig.Out{}}
 
 var malIndex = func() map[string]int {
